@@ -47,6 +47,30 @@ func init() {
 		}
 		return "ok " + out
 	}
+	// bmp.reuse <big> <small>: ONE destination image used twice - Copy(big), then Copy(small) - and, likewise, one
+	// destination of two Mask calls: a destination that held a larger image must read exactly like the smaller source
+	// (count, pixels); whatever the implementation keeps behind the last row is not part of the image.
+	ops["bmp.reuse"] = func(a []string) string {
+		big, small := parseImage(a[0]), parseImage(a[1])
+		var d bitmap.Image
+		d.Copy(big)
+		d.Copy(small)
+		n := d.Stride * d.Rect.Dy()
+		if n > len(d.Pix) {
+			return "ok short-buffer"
+		}
+		shown := fmt.Sprintf("%d,%d,%d,%d,%d:%s", d.Rect.Min.X, d.Rect.Min.Y, d.Rect.Max.X, d.Rect.Max.Y, d.Stride, hexOf(d.Pix[:n]))
+		var m, fresh bitmap.Image
+		blankB, blankS := bitmap.New(big.Rect), bitmap.New(small.Rect)
+		m.Mask(big, blankB, big)
+		m.Mask(small, blankS, small)
+		fresh.Mask(small, blankS, small)
+		mr := "same"
+		if m.OnesCount() != fresh.OnesCount() || m.Point() != fresh.Point() || m.PointMicro() != fresh.PointMicro() {
+			mr = fmt.Sprintf("differs(ones %d vs %d)", m.OnesCount(), fresh.OnesCount())
+		}
+		return fmt.Sprintf("ok %d %s maskreuse=%s", d.OnesCount(), shown, mr)
+	}
 	ops["bmp.new"] = func(a []string) string {
 		img := bitmap.New(image.Rect(atoi(a[0]), atoi(a[1]), atoi(a[2]), atoi(a[3])))
 		return "ok " + showImage(img)
